@@ -245,9 +245,20 @@ def stepLine (st : St) (line : String) : St × List String :=
         (st, [s!"spec {id} cleanup-stalled-on-full-request-queue with the outbound request queue full and {due} retransmission(s) due, every cleanup tick took at least {ms} ms (ticks: {(kv rest "all").getD "?"} ms); posting to a full queue must fail immediately, and while the tick runs no observation, message or guardian-set update is handled"])
       else (st, [s!"ok {id}"])
     | _, _ => (st, [s!"diff {id} unparsable stall line"])
-  | ["rerun", id] =>
-    -- Run returned and was entered again on the same Processor (supervisor restart): the model takes no step
-    (st, if st.dead then [] else [s!"ok {id}"])
+  | "rerun" :: id :: rest =>
+    -- Run returned and was entered again on the same Processor (supervisor restart): the model takes no step, and nothing the node
+    -- has observed or collected may be gone — observations already delivered count towards the quorum whenever the rest arrives
+    if st.dead then (st, []) else
+    match kv rest "st" with
+    | none => (st, [s!"ok {id}"])
+    | some iStS =>
+      let iSt := parseISt iStS
+      let lost := st.prevSt.filter fun e => !(iSt.any (·.digest == e.digest))
+      match lost with
+      | [] => (st, [s!"ok {id}"])
+      | e :: _ =>
+        ({ st with desync := true },
+         [s!"spec {id} rerun-lost-aggregation-state Run was entered again on the same Processor and {lost.length} aggregation entr{if lost.length = 1 then "y" else "ies"} vanished (first: {e.digest}, own observation: {e.our}, signed and pending: {e.ourMsg && !e.submitted}): signatures delivered before the restart no longer count towards the quorum"])
   | "reqs" :: id :: rs :: _ =>
     if st.dead || st.desync then (st, []) else
     match st.pendingReqs with
